@@ -13,6 +13,7 @@ import (
 
 	"verif/core"
 	"verif/props"
+	"verif/sysx"
 )
 
 func main() {
@@ -21,6 +22,9 @@ func main() {
 		os.Exit(2)
 	}
 	switch os.Args[1] {
+	case "sysx-worker":
+		sysx.WorkerMain()
+		return
 	case "list":
 		for _, id := range props.IDs() {
 			fmt.Println(id)
